@@ -887,6 +887,83 @@ def user_cmp_cases(chk, quick):
     chk.sample({"lang": cases[2][1], "prelude": prelude[:160], "expected": cases[2][2]})
 
 
+# ------------------------------------------------------------------ equal values, different representation
+# pairs A ≡ B that are equal but come about differently (negative / positive zero, floats by different routes,
+# ints across the small/big representation, strings and sequences built differently): every derived function
+# must treat them alike — directly, one and two levels inside tuples / sequences / optionals with a deciding
+# later component, and in sort / max / min / distinct / set / mapping keys.
+EQUIV_PAIRS = [
+    # (type, A, B, lo, hi, hashable)   with lo < A ≡ B < hi
+    ("float", "(-0.0)", "0.0", "(-1.5)", "2.5", False),
+    ("float", "(0.0 * (-1.0))", "0.0", "(-1.5)", "2.5", False),
+    ("float", "(0.1 + 0.2)", "0.30000000000000004", "0.25", "0.5", False),
+    ("float", "1e0", "1.0", "0.5", "1.5", False),
+    ("float", "(2.0**53)", "(2.0**53 + 1.0)", "1.0", "(2.0**60)", False),
+    ("int", "(2**64 - 2**64)", "0", "(-1)", "1", True),
+    ("int", "((2**63) - 1 + 1 - 2**63)", "0", "(-1)", "1", True),
+    ("int", "(2**70 - 2**70 + 5)", "5", "4", "(2**70)", True),
+    ("str", '("a" + "b")', '"ab"', '"a"', '"b"', True),
+    ("str", '(chr(97) + "b")', '"ab"', '"a"', '"b"', True),
+    ("Sequence<int>", "range(3)", "[0, 1, 2]", "[0]", "[9]", True),
+    ("Sequence<int>", "[0, 1, 2].map((x: int)->{x})", "range(3)", "[0]", "[9]", True),
+    ("Sequence<int>", "([0] + [1, 2])", "[0, 1, 2]", "[0]", "[9]", True),
+    ("Sequence<float>", "[(-0.0), 1.0]", "[0.0, 1.0]", "[(-1.0)]", "[5.0]", False),
+]
+
+
+def equiv_cases(chk, quick):
+    T, F = "(bool true)", "(bool false)"
+    cases = []
+    for (ty, a0, b0, lo, hi, hashable) in EQUIV_PAIRS:
+        for (A, B) in ((a0, b0), (b0, a0)):
+            proj = f".map((p: ({ty}, int))->{{p::item1}}).to_array()"
+            c = [("eq", f"{A} == {B}", T), ("ne", f"{A} != {B}", F), ("cmp", f"cmp({A}, {B})", "(int S 0)"),
+                 ("lt", f"{A} < {B}", F), ("le", f"{A} <= {B}", T), ("ge", f"{A} >= {B}", T), ("gt", f"{A} > {B}", F),
+                 ("to_str", f"to_str({A}) == to_str({B})", T),
+                 # one level inside, a later component decides
+                 ("tuple-cmp", f"cmp(({A}, 1), ({B}, 0)) > 0", T), ("tuple-lt", f"({A}, 0) < ({B}, 1)", T),
+                 ("tuple-gt", f"({A}, 1) > ({B}, 0)", T), ("tuple-le", f"({A}, 1) <= ({B}, 0)", F),
+                 ("tuple-eq", f"({A}, 1) == ({B}, 1)", T), ("tuple-to_str", f"to_str(({A}, 1)) == to_str(({B}, 1))", T),
+                 ("seq-cmp", f"cmp([{A}, {hi}], [{B}, {lo}]) > 0", T), ("seq-lt", f"[{A}, {lo}] < [{B}, {hi}]", T),
+                 ("seq-ge", f"[{A}, {lo}] >= [{B}, {hi}]", F), ("seq-eq", f"[{A}] == [{B}]", T),
+                 ("seq-cmp0", f"cmp([{A}, {lo}], [{B}, {lo}])", "(int S 0)"),
+                 ("opt-eq", f"some({A}) == some({B})", T), ("opt-ne", f"some({A}) != some({B})", F),
+                 # two levels inside
+                 ("tuple2-cmp", f"cmp((({A}, 1), 2), (({B}, 1), 1)) > 0", T),
+                 ("seq2-cmp", f"cmp([[{A}], [{hi}]], [[{B}], [{lo}]]) > 0", T),
+                 ("seq-of-tuple-gt", f"[({A}, 1)] > [({B}, 0)]", T),
+                 ("tuple-of-opt-eq", f"(some({A}), 1) == (some({B}), 1)", T),
+                 ("tuple-of-seq-lt", f"([{A}], 0) < ([{B}], 1)", T),
+                 # sorting and extrema: equal keys keep the input order, the later component decides
+                 ("sort-later-component", f"[({A}, 1), ({B}, 0)].sort()" + proj, dump_ints([0, 1])),
+                 ("sort-stable", f"[({A}, 0), ({B}, 1), ({A}, 2), ({lo}, 3)].sort((p: ({ty}, int), q: ({ty}, int))->{{cmp(p::item0, q::item0)}})" + proj,
+                  dump_ints([3, 0, 1, 2])),
+                 ("sort-leaf", f"[{hi}, {A}, {B}, {lo}].sort().to_array() == [{lo}, {A}, {B}, {hi}]", T),
+                 ("max", f"max(({A}, 1), ({B}, 0))::item1", "(int S 1)"), ("min", f"min(({A}, 1), ({B}, 0))::item1", "(int S 0)"),
+                 ("nth_smallest", f"[({A}, 1), ({B}, 0), ({lo}, 5)].nth_smallest(1)::item1", "(int S 0)")]
+            if hashable:
+                c += [("hash", f"hash({A}) == hash({B})", T), ("tuple-hash", f"hash(({A}, 1)) == hash(({B}, 1))", T),
+                      ("seq-hash", f"hash([{A}]) == hash([{B}])", T), ("opt-hash", f"hash(some({A})) == hash(some({B}))", T),
+                      ("distinct", f"[{A}, {B}, {A}].to_generator().distinct().len()", "(int S 1)"),
+                      ("set", f"set<{ty}>().update([{A}, {B}]).len()", "(int S 1)"),
+                      ("set-contains", f"set<{ty}>().update([{A}]).contains({B})", T),
+                      ("mapping-keys", f"mapping<{ty}>().set({A}, 1).set({B}, 2).len()", "(int S 1)")]
+            cases += [(ty, op, expr, want) for op, expr, want in c]
+    dumps = eval_exprs([c[2] for c in cases])
+    for (ty, op, expr, want), d in zip(cases, dumps):
+        chk.evaluations += 1
+        chk.count("equiv:" + op)
+        chk.count("equiv:type:" + ty)
+        if d != want:
+            kind = "panic" if d.startswith("panic") else ("compile" if d.startswith("compile-err") else "wrong")
+            chk.violation(f"lang:equiv:{op}:{kind}",
+                          f"equal values of different representation must be treated alike: {expr[:300]} evaluates to {d[:160]}; expected {want[:100]}",
+                          {"src": f"let r = {expr};", "get": ["r"], "expected": want, "got": d})
+        else:
+            chk.nontrivial.add(("equiv", op, expr))
+    chk.sample({"lang": cases[2][2], "expected": cases[2][3]})
+
+
 def _resp_fail_local(r):
     if "panic" in r:
         return "panic " + r["panic"]
@@ -978,6 +1055,7 @@ def run(chk):
     select_cases(chk, quick)
     derive_cases(chk, quick)
     user_cmp_cases(chk, quick)
+    equiv_cases(chk, quick)
     format_cases(chk, quick)
     regression_cases(chk)
     if not quick:
